@@ -1405,6 +1405,368 @@ def run_encryptor(ctx, r):
         r.violation(he, he.loc(sn.ast), "a chunk can be consumed without advancing the AES counter", w)
 
 
+# ------------------------------------------- response orders in the downloader
+FINDER = "immutable.downloader.finder:ShareFinder"
+CSHARE = "immutable.downloader.share:CommonShare"
+
+
+def _plain():
+    return Normaliser(Env(None, depth=0))
+
+
+def _self_callees(fn, cls):
+    """Methods of `cls` that `fn` calls as self.<name>(..), in call order."""
+    out = []
+    for c in calls_in_func(fn, None, into_lambda=True):
+        nm = call_name(c)
+        if nm.startswith("self.") and nm.count(".") == 1:
+            m = cls.lookup(nm.split(".")[1])
+            if m is not None and m not in out:
+                out.append(m)
+    return out
+
+
+def _numsegs_source(fn):
+    """Receiver R of the one <R>.get_num_segments() call in fn, the normal forms that denote the authoritative
+    segment count, and the canonical facts meaning 'the count is still a guess'."""
+    recvs = {attr_path(c.func.value) for c in calls_in_func(fn, "get_num_segments") if isinstance(c.func, ast.Attribute)}
+    recvs.discard(None)
+    if len(recvs) != 1:
+        raise AnchorVanished("%s: expected the segment count to come from one <node>.get_num_segments(), found %s" % (
+            short(fn), sorted(recvs)))
+    R = recvs.pop()
+    counts = {norm_src("%s.get_num_segments()[0]" % R), norm_src("%s.num_segments" % R)}
+    guess = {_plain().cmp(parse_expr(s % R), True) for s in ("not %s.get_num_segments()[1]", "not %s.have_UEB",
+                                                              "%s.num_segments is None")}
+    return R, counts, guess
+
+
+def run_authoritative(ctx, r):
+    """Invariant: once the node has a validated UEB, every CommonShare a Share can hold is marked authoritative
+    (Share._get_satisfaction then calls CommonShare methods that assert it).  DYHB answers and the UEB arrive in
+    any order, so the invariant has to be established by the UEB event for the CommonShares that exist and by
+    the creation site for the ones created later."""
+    idx = ctx.idx
+    plain = _plain()
+    cs_ci = idx.cls(CSHARE)
+    # ---- the flag the CommonShare methods insist on, and the method that sets it
+    asserted = {}
+    for m in cs_ci.methods.values():
+        for n in m.cfg().nodes:
+            if n.kind == "test" and n.assume and isinstance(n.ast, ast.Attribute):
+                p = attr_path(n.ast)
+                if p and p.startswith("self."):
+                    asserted.setdefault(p, set()).add(m.name)
+    if len(asserted) != 1:
+        raise AnchorVanished("CommonShare: expected one asserted 'authoritative' flag, found %s" % sorted(asserted))
+    flag = next(iter(asserted))
+    mark = idx.func(CSHARE + ".set_authoritative_num_segments")
+    mp = first_positional_params(mark)
+    if len(mp) != 1:
+        raise AnchorVanished("set_authoritative_num_segments signature changed")
+    mcfg = mark.cfg()
+
+    def sets_flag(n):
+        return n.kind == "stmt" and isinstance(n.ast, ast.Assign) and flag in node_stores(n) \
+            and isinstance(n.ast.value, ast.Constant) and n.ast.value.value is True
+    r.site(mark, None, "marks %s (asserted by %s)" % (flag, ",".join(sorted(asserted[flag]))))
+    for (n, w) in find_path_avoiding(mcfg, lambda q: q.kind == "exit", gate_node=sets_flag, skip_exc_edges=True):
+        r.violation(mark, mark.loc(), "%s can return without setting %s: a CommonShare whose guessed segment count was "
+                    "right is never marked authoritative and dies on the assertion in %s (path: %s)" % (
+                        mark.name, flag, sorted(asserted[flag])[0], w.brief()), w)
+    # the tree it leaves behind has the authoritative number of leaves
+    pb = idx.func(CSHARE + ".process_block_hashes")
+    tree = attr_path(the_call(pb, "set_hashes").func.value)
+
+    def rebuilds(n):
+        v = assign_value(n, tree) if n.kind == "stmt" and tree in node_stores(n) else None
+        return isinstance(v, ast.Call) and call_tail(v) == "IncompleteHashTree" and len(v.args) == 1 and nf(v.args[0]) == mp[0]
+    size_attrs = set()
+
+    def same_size(n, lab):
+        if n.kind != "test" or not isinstance(lab, tuple):
+            return False
+        f = plain.cmp(n.ast, lab[0] == "T")
+        if f and f[0] == "==" and mp[0] in (f[1], f[2]):
+            other = f[2] if f[1] == mp[0] else f[1]
+            if other and other.startswith("self."):
+                size_attrs.add(other)
+                return True
+        return False
+    for (n, w) in find_path_avoiding(mcfg, lambda q: q.kind == "exit", gate_node=rebuilds, gate_edge=same_size,
+                                     skip_exc_edges=True):
+        r.violation(mark, mark.loc(), "%s can mark the block hash tree authoritative although it neither has %s leaves nor "
+                    "is rebuilt with IncompleteHashTree(%s) (path: %s)" % (mark.name, mp[0], mp[0], w.brief()), w)
+    for la in sorted(size_attrs):
+        def keeps(n, _la=la):
+            return n.kind == "stmt" and _la in node_stores(n) and nf(assign_value(n, _la)) == mp[0]
+        for rb in mcfg.find(rebuilds):
+            before = find_path_avoiding(mcfg, lambda q, _rb=rb: q is _rb, gate_node=keeps, skip_exc_edges=True)
+            after = find_path_from_to_avoiding(mcfg, lambda q, _rb=rb: q is _rb, keeps)
+            if before and after:
+                r.violation(mark, mark.loc(rb.ast), "the block hash tree is rebuilt for %s leaves but %s keeps the guessed count" % (
+                    mp[0], la), after[0][1])
+
+    # ---- UEB event: ShareFinder.update_num_segments marks every registered CommonShare
+    upd = idx.func(FINDER + ".update_num_segments")
+    ucfg = upd.cfg()
+    us = Sym(idx, upd)
+    R, counts, _guess = _numsegs_source(upd)
+    loops = []
+    for n in ucfg.nodes:
+        if n.kind == "iter" and isinstance(n.ast.iter, ast.Call) and call_tail(n.ast.iter) in ("values", "items") \
+                and not n.ast.iter.args:
+            reg = attr_path(n.ast.iter.func.value)
+            t = n.ast.target
+            if call_tail(n.ast.iter) == "items":
+                t = t.elts[1] if isinstance(t, ast.Tuple) and len(t.elts) == 2 else None
+            if reg and reg.startswith("self.") and isinstance(t, ast.Name):
+                loops.append((n, reg, t.id))
+    if len(loops) != 1:
+        raise AnchorVanished("update_num_segments: the loop over the registered CommonShares was not found")
+    loop, registry, lv = loops[0]
+    r.site(upd, loop.ast, "every CommonShare in %s is marked with %s" % (registry, sorted(counts)[0]))
+
+    def marks_loopvar(n):
+        for c in calls_at(n, mark.name):
+            if isinstance(c.func, ast.Attribute) and isinstance(c.func.value, ast.Name) and c.func.value.id == lv \
+                    and us.rd.get(n.id, {}).get(lv) == frozenset([loop.id]):
+                return True
+        return False
+    body = [ucfg.nodes[d] for (d, lab) in ucfg.succ[loop.id] if lab == "iter"]
+    skipped = False
+    for b in body:
+        vis, par = explore(ucfg, 0, lambda a_, l_, nx, st_: None if (l_ == "exc" or marks_loopvar(a_)) else 0, start=b)
+        if not marks_loopvar(b) and any(ucfg.nodes[i] is loop or ucfg.nodes[i].kind == "exit" for (i, _s) in vis):
+            skipped = True
+    r.require(bool(body) and not skipped, upd, upd.loc(loop.ast), "update_num_segments does not call %s on every CommonShare in %s: "
+              "a share found before the UEB stays non-authoritative and dies on the assertion" % (mark.name, registry))
+    for (n, w) in find_path_avoiding(ucfg, lambda q: q.kind == "exit", gate_node=lambda q: q is loop, skip_exc_edges=True):
+        r.violation(upd, upd.loc(), "update_num_segments can return without visiting the CommonShares in %s" % registry, w)
+    for n in ucfg.find(marks_loopvar):
+        for c in calls_at(n, mark.name):
+            got = nf(us.expand(n, arg(c, 0, mp[0])))
+            r.require(got in counts, upd, upd.loc(c), "existing CommonShares are marked authoritative with %s, not with the "
+                      "node's authoritative segment count" % got)
+
+    # ---- UEB event: the node runs the update in the same turn in which have_UEB becomes true
+    node_ci = idx.cls(NODE)
+
+    def sets_have_ueb(n):
+        return n.kind == "stmt" and isinstance(n.ast, ast.Assign) and "self.have_UEB" in node_stores(n) \
+            and isinstance(n.ast.value, ast.Constant) and n.ast.value.value is True
+    ev = [(m, n) for m in node_ci.methods.values() if m.name != "__init__" for n in m.cfg().find(sets_have_ueb)]
+    if len(ev) != 1:
+        raise AnchorVanished("DownloadNode: expected one method setting have_UEB = True, found %d" % len(ev))
+    vfn, hn = ev[0]
+    vcfg = vfn.cfg()
+    updates = has_call(upd.name)
+    r.site(vfn, hn.ast, "have_UEB = True is accompanied by %s()" % upd.name)
+    before = find_path_avoiding(vcfg, lambda q: q is hn, gate_node=updates, skip_exc_edges=True)
+    after = find_path_from_to_avoiding(vcfg, lambda q: q is hn, updates)
+    if before and after:
+        r.violation(vfn, vfn.loc(hn.ast), "%s sets have_UEB without calling the share finder's %s(): the CommonShares created "
+                    "before the UEB arrived are never marked authoritative and every share dies on the assertion" % (
+                        vfn.name, upd.name), after[0][1])
+    # ... and only after the authoritative count has been stored (update_num_segments insists on it)
+    setters = [m for m in _self_callees(vfn, node_ci) if any(
+        "self.num_segments" in node_stores(n) for n in m.cfg().nodes)]
+    if any("self.num_segments" in node_stores(n) for n in vcfg.nodes):
+        parsed = stores("self.num_segments")
+    elif setters:
+        parsed = lambda q: any(call_name(c) == "self." + m.name for m in setters for c in node_calls(q))
+    else:
+        raise AnchorVanished("%s no longer stores the authoritative num_segments" % short(vfn))
+    for (n, w) in find_path_avoiding(vcfg, updates, gate_node=parsed, skip_exc_edges=True):
+        r.violation(vfn, vfn.loc(n.ast), "%s() runs before the authoritative num_segments is stored" % upd.name, w)
+
+    # ---- creation: a CommonShare made after the UEB is known is marked at once; every one is registered
+    cg = get_callgraph(idx)
+    ctors = [cs for cs in cg.calls_named("CommonShare") if ".test." not in cs.fn.module.name + "."
+             and isinstance(cs.call.func, (ast.Name, ast.Attribute))]
+    if not ctors:
+        raise AnchorVanished("no CommonShare(..) construction found in the package")
+    for site in ctors:
+        fn, call = site.fn, site.call
+        cfg = fn.cfg()
+        sym = Sym(idx, fn)
+        cn = node_of(fn, call)
+        if not (cn.kind == "stmt" and isinstance(cn.ast, ast.Assign) and cn.ast.value is call
+                and len(cn.ast.targets) == 1 and isinstance(cn.ast.targets[0], ast.Name)):
+            raise AnalysisError("%s: the new CommonShare is not bound to a local name" % short(fn))
+        var = cn.ast.targets[0].id
+        R2, counts2, guess = _numsegs_source(fn)
+        r.site(fn, call, "new CommonShare %s: registered in %s, marked unless the count is a guess" % (var, registry))
+
+        def is_new(n, e):
+            return isinstance(e, ast.Name) and e.id == var and sym.rd.get(n.id, {}).get(var) == frozenset([cn.id])
+
+        def transfer(n, lab, nxt, st, _fn=fn, _cn=cn):
+            if lab == "exc":
+                return None
+            stored, marked = st
+            if n is not _cn and n.kind == "stmt" and var in node_stores(n):
+                return None          # the name now denotes another object
+            if n.kind == "test" and isinstance(lab, tuple):
+                f = plain.cmp(sym.expand(n, n.ast), lab[0] == "T")
+                if f in guess:
+                    marked = True
+            if n.kind == "stmt":
+                if registry + "[]" in node_stores(n) and isinstance(n.ast, ast.Assign) and is_new(n, n.ast.value):
+                    stored = True
+                for c in node_calls(n):
+                    if call_tail(c) == mark.name and isinstance(c.func, ast.Attribute) and is_new(n, c.func.value):
+                        marked = True
+                    elif call_name(c) == "self." + upd.name and stored:
+                        marked = True
+            return (stored, marked)
+        vis, par = explore(cfg, (False, False), transfer, start=cn)
+        r.count(len(vis))
+        told = set()
+        for (nid, st) in sorted(vis):
+            if cfg.nodes[nid].kind != "exit":
+                continue
+            w = witness(cfg, par, (nid, st))
+            if not st[1] and "m" not in told:
+                told.add("m")
+                r.violation(fn, fn.loc(call), "a CommonShare created when the node already knows the real segment count (a "
+                            "DYHB answer that arrives after another share's UEB was validated) is not marked with %s: "
+                            "%s() only runs once, at the moment the UEB is validated, so this share dies on the assertion "
+                            "of %s (path: %s)" % (mark.name, upd.name, flag, w.brief()), w)
+            if not st[0] and "s" not in told:
+                told.add("s")
+                r.violation(fn, fn.loc(call), "a new CommonShare can leave %s without being stored in %s: %s() will never "
+                            "reach it (path: %s)" % (short(fn), registry, upd.name, w.brief()), w)
+        for n in cfg.nodes:
+            for c in node_calls(n):
+                if call_tail(c) == mark.name and isinstance(c.func, ast.Attribute) and is_new(n, c.func.value):
+                    got = nf(sym.expand(n, arg(c, 0, mp[0])))
+                    r.require(got in counts2, fn, fn.loc(c), "the new CommonShare is marked authoritative with %s, not with the "
+                              "node's authoritative segment count" % got)
+                    # the mark must not be applied while the count is a guess
+                    def known(m_, lab):
+                        if m_.kind != "test" or not isinstance(lab, tuple):
+                            return False
+                        return plain.cmp(sym.expand(m_, m_.ast), lab[0] != "T") in guess
+                    for (t, w) in find_path_avoiding(cfg, lambda q, _n=n: q is _n, gate_edge=known, start=cn, skip_exc_edges=True):
+                        r.violation(fn, fn.loc(c), "the new CommonShare is marked authoritative although the segment count may "
+                                    "still be a guess (path: %s)" % w.brief(), w)
+
+
+def run_complete_before_submit(ctx, r):
+    """Share._satisfy_*: data is handed to its consumer (struct parse, UEB check, hash tree, block check) only when
+    every piece fetched for it has arrived.  Read answers arrive in any order and the loop runs after each one, so a
+    partially answered request is the normal case: submitting it makes the hash tree raise NotEnoughHashesError /
+    the parser fail, and a good share is reported corrupt and abandoned."""
+    idx = ctx.idx
+    plain = _plain()
+    share = idx.cls(SHARE)
+    gs = idx.func(SHARE + "._get_satisfaction")
+    store = "self._received"
+
+    def is_fetch(c):
+        return call_name(c) in (store + ".get", store + ".pop")
+    stages = [m for m in _self_callees(gs, share) if any(is_fetch(c) for c in calls_in_func(m, None, into_lambda=True))]
+    if len(stages) < 6:
+        raise AnchorVanished("_get_satisfaction: fewer than 6 _satisfy_* stages read %s (%s)" % (store, [m.name for m in stages]))
+    for m in stages:
+        cfg = m.cfg()
+        rd = FlowNorm(m).rd
+        defs = def_exprs(m)
+        local_names = {s for n in cfg.nodes for s in node_stores(n) if "." not in s and not s.endswith("[]")}
+        for fnode in cfg.nodes:
+            for fc in [c for c in node_calls(fnode) if is_fetch(c)]:
+                if not (fnode.kind == "stmt" and isinstance(fnode.ast, ast.Assign) and fnode.ast.value is fc
+                        and len(fnode.ast.targets) == 1 and isinstance(fnode.ast.targets[0], ast.Name)):
+                    raise AnalysisError("%s: the result of %s is not bound to a local name" % (short(m), src(m, fc)))
+                X = fnode.ast.targets[0].id
+                r.site(m, fc, "%s tested for absence before use" % X)
+
+                # consumers: calls (not on the span store, not logging, not methods of local containers) fed by X
+                def consumes(q, _X=X):
+                    if q is fnode:
+                        return None
+                    for k in node_calls(q, into_lambda=True):
+                        nm = call_name(k)
+                        if nm.startswith(store + ".") or nm.startswith("log.") or nm in ("len", "repr", "str", "bool"):
+                            continue
+                        if isinstance(k.func, ast.Attribute) and not (attr_path(k.func.value) or "").startswith("self.") \
+                                and not (isinstance(k.func.value, ast.Name) and k.func.value.id not in local_names):
+                            continue        # method of a local object / literal (dict.update, ",".join, o.notify)
+                        for a in list(k.args) + [kw.value for kw in k.keywords]:
+                            if _X in depends_on(m, a, defs=defs):
+                                return k
+                    return None
+                cons = [q for q in cfg.nodes if consumes(q) is not None]
+                if not cons:
+                    raise AnchorVanished("%s: no consumer of the fetched %s found" % (short(m), X))
+                # the edges on which the fetched value is absent
+                missing = []
+                for t in cfg.nodes:
+                    if t.kind != "test" or rd.get(t.id, {}).get(X) != frozenset([fnode.id]):
+                        continue
+                    if X not in names_in(t.ast):
+                        continue
+                    for (d, lab) in cfg.succ[t.id]:
+                        if not isinstance(lab, tuple):
+                            continue
+                        f = plain.cmp(t.ast, lab[0] == "T")
+                        if f and ((f[0] == "false" and f[1] == X) or (f[0] in ("is", "==") and {f[1], f[2]} == {X, "None"})):
+                            missing.append((t, lab, cfg.nodes[d]))
+                if not missing:
+                    q = cons[0]
+                    r.violation(m, m.loc(fc), "%s = %s is never tested for absence before %s uses it: the answer to this read "
+                                "may not have arrived when the loop runs" % (X, src(m, fc), src(m, consumes(q))))
+                    continue
+
+                def transfer(n, lab, nxt, st):
+                    if lab == "exc":
+                        return None
+                    d = dict(st)
+                    if n.kind == "test" and isinstance(lab, tuple):
+                        f = plain.cmp(n.ast, lab[0] == "T")
+                        if f and f[0] in ("truth", "false") and f[1] in d and d[f[1]] != (f[0] == "truth"):
+                            return None      # contradicts a flag set on this path
+                    if n.kind == "stmt":
+                        for s in node_stores(n):
+                            d.pop(s, None)
+                        a = n.ast
+                        if isinstance(a, ast.Assign) and len(a.targets) == 1 and isinstance(a.targets[0], ast.Name) \
+                                and isinstance(a.value, ast.Constant) and isinstance(a.value.value, bool):
+                            d[a.targets[0].id] = a.value.value
+                    return frozenset(d.items())
+                told = set()
+                for (t, lab, first) in missing:
+                    vis, par = explore(cfg, frozenset(), transfer, start=first)
+                    r.count(len(vis))
+                    for (nid, st) in sorted(vis, key=lambda x: (x[0], sorted(x[1]))):
+                        q = cfg.nodes[nid]
+                        k = consumes(q)
+                        if k is not None and ("c", nid) not in told:
+                            told.add(("c", nid))
+                            w = witness(cfg, par, (nid, st))
+                            r.violation(m, m.loc(k), "%s reaches %s although %s (from %s) has not arrived: a partially "
+                                        "answered request is submitted, the consumer raises and the good share is "
+                                        "reported corrupt and abandoned (path from the absent-data edge at %s: %s)" % (
+                                            short(m), src(m, k), X, src(m, fc), m.loc(t.ast), w.brief()), w)
+                        elif is_return(q) and ("r", nid) not in told:
+                            v = q.ast.value
+                            flags = dict(st)
+                            ok = v is None or (isinstance(v, ast.Constant) and not v.value) or \
+                                (isinstance(v, ast.Name) and flags.get(v.id) is False)
+                            if not ok:
+                                told.add(("r", nid))
+                                w = witness(cfg, par, (nid, st))
+                                r.violation(m, m.loc(q.ast), "%s reports the stage as satisfied (%s) although %s has not arrived "
+                                            "(path: %s)" % (short(m), src(m, q.ast), X, w.brief()), w)
+                # a consumer inside the fetch loop is fed one piece at a time
+                for q in cons:
+                    vis, _p = explore(cfg, 0, lambda a_, l_, nx, st_: None if l_ == "exc" else 0, start=q)
+                    if any(i == fnode.id for (i, _s) in vis if (i, _s) != (q.id, 0)) :
+                        r.violation(m, m.loc(consumes(q)), "%s is called inside the loop that fetches %s: pieces are submitted "
+                                    "before the rest of the request is known to have arrived" % (src(m, consumes(q)), X))
+
+
 # ====================================================================== driver
 def run(ctx: Context):
     idx = ctx.idx
